@@ -128,16 +128,7 @@ def norm(ctx, fn, expr, at_node=None, depth=2, pol=True):
 
 
 def _expand_deep(g, e, at_node):
-    """Alias expansion inside comparisons / arithmetic (new parent nodes, original leaves)."""
-    if isinstance(e, ast.Name):
-        return g.expand(e, at_node)
-    if isinstance(e, ast.Compare):
-        return ast.Compare(left=_expand_deep(g, e.left, at_node), ops=e.ops, comparators=[_expand_deep(g, c, at_node) for c in e.comparators])
-    if isinstance(e, ast.BinOp):
-        return ast.BinOp(left=_expand_deep(g, e.left, at_node), op=e.op, right=_expand_deep(g, e.right, at_node))
-    if isinstance(e, ast.UnaryOp):
-        return ast.UnaryOp(op=e.op, operand=_expand_deep(g, e.operand, at_node))
-    return e
+    return g.expand_deep(e, at_node)
 
 
 def _inline_pred(ctx, fn, e, depth):
